@@ -79,6 +79,12 @@ static void childRun(Program& prog, const std::vector<int>& prefix) {
         } catch (const std::exception& e) {
             g_status = "runtime";
         }
+        // "always stopped when a run ends, normally or by error": the run has ended here, before the evaluator is destroyed
+        if (sched::threadCount() > 1 && !sched::threadFinished(1)) {
+            sched::end();
+            report("timer-alive-after-run");
+            _exit(0);
+        }
         g_phase = "destroy";
     }
     g_phase = "destroyed";
@@ -235,6 +241,7 @@ int main(int argc, char** argv) {
         else if (r.end == "deadlock") bad("deadlock in phase " + r.phase);
         else if (r.end == "overrun") bad("livelock: more than 20000 scheduling points");
         else if (r.end == "timer-alive-after-destructor") bad("the timer thread is still running after the evaluator was destroyed");
+        else if (r.end == "timer-alive-after-run") bad("the timer thread is still running after execute() ended (status " + r.status + "), before the evaluator is destroyed");
         else if (r.end != "done") bad("execution ended abnormally: '" + r.end + "' in phase " + r.phase);
         else {
             if (r.status != ref.status) bad("status " + r.status + " differs from the sequential run's " + ref.status);
